@@ -721,8 +721,8 @@ def double_embedding(rng, n, dim):
         for l in range(dim):
             if kind == "overflow":
                 # round 5: doubles whose DIFFERENCE overflows to inf (not reachable through the
-                # class, whose embedding is float32-born; the kernels accept any doubles).  The
-                # model has no overflow: these cases go to the oracle only.
+                # class, whose embedding is float32-born; the kernels accept any doubles): the
+                # driver's float structure `xOpsO rnd64` overflows to inf from 2^1024 on.
                 E[a, l] = rng.choice([1.7e308, -1.7e308, 1e308, -1e308, 0.0, 1.0, 8.9e307, -8.99e307])
             elif kind == "subnormal":
                 # round 5: samples / differences in and around the subnormal range (gradual
@@ -865,7 +865,7 @@ def doubles(ctx, K, RecurrencePlot, rng, nprng, quick):
                              {"E": enc_xmat(E.tolist()), "eps": repr(eps)})
         # round 5: the matrix mode's distance kernel against its two outer loops AS WRITTEN
         # (generated `supremum_rp_loops`, proved equal to the closed form of the model)
-        if n <= 11 and not overflows:
+        if n <= 11:
             try:
                 Dm = np.array(K._supremum_distance_matrix_rp(n, dim, np.ascontiguousarray(E)))
                 lreqs.append(f"xdistloops b64 {n} {dim} {enc_xmat(E.tolist())}")
@@ -895,9 +895,8 @@ def doubles(ctx, K, RecurrencePlot, rng, nprng, quick):
             req = f"{name} b64 {n} {dim} {enc_xmat(E.tolist())} {enc_x(eps)}"
             if mv:
                 req += " " + enc_vec(M)
-            if not overflows:
-                reqs.append(req)
-                impl.append(got)
+            reqs.append(req)            # round 5: the driver's float structure has the overflow
+            impl.append(got)
             ctx.count(f"kernel:{name}")
             ctx.count(f"doubles:data={kind}")
             ctx.count(f"doubles:special={special}")
